@@ -330,15 +330,40 @@ example : iterProduct [⟨["i"], .range (.lit 0) (.lit 3) false⟩, ⟨["a", "b"
 section casts
 variable {K : Type} [Field K] [LinearOrder K] [IsStrictOrderedRing K] [FloorRing K]
 
-/-- `as_integer_cast` (`*n as i64`, saturating) returns an `i64` -/
+/-- the integer cast of an integer-valued primitive is EXACT: the value itself, or an error (full since /repo
+2f900bf; before, see `integer_cast_wrap_counterexample`) -/
+theorem integer_cast_exact (p : Prim (Ext K)) (x i : Int) (hx : p = .integer x ∨ (∃ u : Nat, p = .pint u ∧ x = u))
+    (h : asIntegerCast p = .ok i) : i = x := by
+  rcases hx with rfl | ⟨u, rfl, rfl⟩
+  · simpa [asIntegerCast] using h.symm
+  · simp only [asIntegerCast] at h
+    split at h
+    · simpa using h.symm
+    · simp at h
+
+/-- regression: BEFORE 2f900bf a `PositiveInteger` from 2^63 on was reinterpreted (`as i64`), so `0..n` with
+`n = 2^63` (reachable as `len(A)^7` for 512 elements) was an EMPTY range instead of an error -/
+theorem integer_cast_wrap_counterexample :
+    asIntegerCastWrap (.pint 9223372036854775808 : Prim (Ext K)) = .ok (-9223372036854775808) := by
+  simp [asIntegerCastWrap, u64AsI64]
+
+/-- the repair changed nothing for values below 2^63 -/
+theorem integer_cast_repair_agrees (p : Prim (Ext K)) (hp : ∀ u, p = .pint u → u < 9223372036854775808) :
+    asIntegerCast p = asIntegerCastWrap p := by
+  cases p with
+  | pint u => have := hp u rfl; simp [asIntegerCastWrap, asIntegerCast, u64AsI64, this]
+  | _ => rfl
+
+/-- `as_integer_cast` returns an `i64` (`n as i64` on a `Number` saturates) -/
 theorem asIntegerCast_in_range (p : Prim (Ext K)) (hwf : p.wf = true) (i : Int) (h : asIntegerCast p = .ok i) : inI64 i = true := by
   rw [inI64_iff]
   cases p with
   | integer n => simp [asIntegerCast] at h; subst h; simpa [Prim.wf, inI64_iff] using hwf
   | pint n =>
-    simp [asIntegerCast] at h; subst h
-    rw [pint_wf_iff] at hwf
-    simp only [u64AsI64]; split <;> omega
+    simp only [asIntegerCast] at h
+    split at h
+    · simp at h; subst h; omega
+    · simp at h
   | boolean b => simp [asIntegerCast, boolI] at h; subst h; cases b <;> simp
   | number x =>
     simp only [asIntegerCast] at h
